@@ -218,6 +218,9 @@ func Power(ctx *expr.Context, input system.Collection, args ...expr.Expression) 
 	if err != nil {
 		return nil, err
 	}
+	if argValues.IsEmpty() {
+		return system.Collection{}, nil
+	}
 	// Validating integers case
 	_, ok := input[0].(system.Integer)
 	_, ok2 := argValues[0].(system.Integer)
@@ -233,7 +236,10 @@ func Power(ctx *expr.Context, input system.Collection, args ...expr.Expression) 
 			return nil, err
 		}
 		// Powering ints
-		res := powInt32(number, exp)
+		res, fits := powInt32(number, exp)
+		if !fits {
+			return system.Collection{}, nil // overflow: empty
+		}
 		return system.Collection{system.Integer(res)}, nil
 	}
 	// Input type conversion to float64
@@ -381,18 +387,31 @@ func logToBase(number, base float64) float64 {
 	return math.Log(number) / math.Log(base)
 }
 
-// powInt32 returns the powering of a number to a given exponential.
-func powInt32(base, exp int32) int32 {
+// powInt32 returns the powering of a number to a given exponential, and whether
+// the result is representable as an int32.
+func powInt32(base, exp int32) (int32, bool) {
 	if exp == 0 {
-		return 1
+		return 1, true
 	}
 	if exp < 0 {
-		return 0
+		return 0, true
 	}
-
-	result := base
-	for i := int32(2); i <= exp; i++ {
-		result *= base
+	switch base {
+	case 0, 1:
+		return base, true
+	case -1:
+		if exp%2 == 0 {
+			return 1, true
+		}
+		return -1, true
 	}
-	return result
+	// |base| >= 2: the result leaves the int32 range after at most 31 multiplications
+	result := int64(base)
+	for i := int32(1); i < exp; i++ {
+		result *= int64(base)
+		if result > math.MaxInt32 || result < math.MinInt32 {
+			return 0, false
+		}
+	}
+	return int32(result), true
 }
